@@ -42,23 +42,28 @@ def canon_ids(ids):
 
 
 class RefMonitor(object):
+    """records are tuples (x, y, id, key): x and y normalised by `plain`, key their
+    canonical form (computed once, when the record is made)"""
+
     def __init__(self, records=()):
         self.r = list(records)
 
     # ---- the operations of the statement
     def record(self, x, y, id=None):
-        self.r.append((plain(x), plain(y), id))
+        self.record_plain(plain(x), plain(y), id)
 
-    def record_plain(self, px, py, id=None):
+    def record_plain(self, px, py, id=None, key=None):
         """px, py already normalised by `plain` (and never mutated afterwards)"""
-        self.r.append((px, py, id))
+        if key is None:
+            key = (canon(px), canon(py), id)
+        self.r.append((px, py, id, key))
 
     def __len__(self):
         return len(self.r)
 
     def index(self, i):
-        x, y, _ = self.r[i]          # IndexError exactly when a list raises it
-        return x, y
+        rec = self.r[i]              # IndexError exactly when a list raises it
+        return rec[0], rec[1]
 
     def slice(self, a, b, c=None):
         return RefMonitor(self.r[a:b:c])
@@ -86,7 +91,7 @@ class RefMonitor(object):
         return [r[2] for r in self.r]
 
     def key(self):
-        return (canon(self.x), canon(self.y), canon_ids(self.id))
+        return tuple([r[3] for r in self.r])
 
 
 # ---------------------------------------------------------------- file layouts
